@@ -104,8 +104,10 @@ def _gen_core(rng, tier):
         yield Case("profile", [alpha, rs, ch, rng.choice([-1, 0, L - 1, L, rng.randint(0, L)])], ch < 130, "profile")
         # unique gaps / mutations with a count profile built from a second alignment (same length, sometimes not)
         yield Case("uniquesprof", [alpha, rs, rows_str(prof_al(rng, alpha, L))], n > 2, "uniquesprof")
-        # Pssm: repeated calls agree; plain counts without normalisation
-        lg, ps, nm = rng.choice([(0, "0", 0), (0, "0", 0), (rng.randint(0, 1), rng.choice(["0", "1/2", "1"]), rng.randint(0, 4))])
+        # Pssm: the model (Gv.Model.pssm at Float) within tolerance; repeated calls agree; the five normalisations, an
+        # unknown one (error), logarithm, pseudo-counts (also negative: added to the denominators only)
+        lg, ps, nm = rng.choice([(0, "0", 0), (0, "0", 1), (rng.randint(0, 1), rng.choice(["0", "1/2", "1", "1/3", "3", "-1/2"]),
+                                                          rng.choice([0, 1, 1, 2, 3, 4, 4, 5, -1]))])
         yield Case("pssm", [alpha, rs, lg, ps, nm, 20], True, "pssm")
     # columns with several gaps that the profile does not have (every row's `numnew` must count them)
     for _ in range(N // 2):
